@@ -29,6 +29,8 @@ type caseParams struct {
 	PR    int // lfs.pruneremotetocheck: 0 unset (= origin), 1 origin, 2 upstream
 	Track int // index into c05Tracks: settings that change git-lfs's *default* remote (never the prune remote)
 	Hold  int // index into c05Holds: which of the two LFS servers holds which prunable candidate
+	// product "refkinds": lfs.fetchrecentremoterefs=false (unset = the documented default true)
+	NoRR bool
 }
 
 // pruneRemote is the remote the statement calls "the prune remote": lfs.pruneremotetocheck, default origin
@@ -115,6 +117,9 @@ func (p caseParams) String() string {
 	}
 	if p.Two {
 		r += fmt.Sprintf(" two-remotes(pruneremotetocheck=%s default-remote-setting=%s servers=%s)", c05PRNames[p.PR], c05Tracks[p.Track].Name, c05Holds[p.Hold])
+	}
+	if p.NoRR {
+		r += " fetchrecentremoterefs=false"
 	}
 	return r
 }
@@ -303,34 +308,57 @@ func (f *facts) demands(p caseParams) map[string][]demand {
 	}
 	// recent refs and recent commits (documented: given up by --recent and --force; a zero day value disables)
 	if p.Mode == 0 {
+		// A recent ref is a ref "which has commits within N days of the current date", "only local refs ... unless
+		// lfs.fetchrecentremoterefs is true" (git-lfs-config(5), lfs.fetchrecentrefsdays), N = refsdays + pruneoffsetdays
+		// (git-lfs-prune(1)).  Local refs are the branches and the tags; the date of a ref is the commit date of the commit
+		// it names; for an annotated tag the tag's own date must be inside the window as well (so that the demand holds
+		// whichever of the two one takes to be the ref's date).  The documentation says nothing about refs outside
+		// refs/heads, refs/tags and refs/remotes: nothing is demanded for them.
 		now := c05Now.Unix()
-		type tip struct{ sha, kind string }
-		tips := []tip{{f.WTs[0].Head, "tip=HEAD"}}
+		type tip struct {
+			sha, kind string
+			rank      int // 0 HEAD / branch, 1 lightweight tag, 2 annotated tag
+		}
+		tips := []tip{{f.WTs[0].Head, "tip=HEAD", 0}}
 		if p.R > 0 {
+			win := int64(p.R+p.O) * 86400
 			for _, r := range f.Refs {
-				kind := ""
+				kind, rank := "", 0
 				switch {
 				case strings.HasPrefix(r.Name, "refs/heads/"):
 					kind = "ref=local"
 				case strings.HasPrefix(r.Name, "refs/remotes/"):
+					if p.NoRR {
+						continue // documented: only local refs unless lfs.fetchrecentremoterefs is true
+					}
 					kind = "ref=remote"
+				case strings.HasPrefix(r.Name, "refs/tags/") && !r.Annotated:
+					kind, rank = "ref=tag", 1
+				case strings.HasPrefix(r.Name, "refs/tags/"):
+					if now-r.TagTime >= win {
+						continue
+					}
+					kind, rank = "ref=annotated-tag", 2
 				default:
 					continue
 				}
-				if now-f.Commits[r.Sha].CTime < int64(p.R+p.O)*86400 {
+				if now-f.Commits[r.Sha].CTime < win {
 					for pth, oid := range f.Commits[r.Sha].Tree {
 						if !c05Excluded(p, pth) {
 							add(oid, "recent-ref", kind)
 						}
 					}
-					tips = append(tips, tip{r.Sha, kind})
+					tips = append(tips, tip{r.Sha, kind, rank})
 				}
 			}
 		}
 		if p.C > 0 {
 			// desc: "plain" when the object is in the tip tree or on the removed side of an ordinary (non-merge) diff
 			// inside the window; "dropped-by-merge" when only a merge commit drops it
+			// plus ",tip=tag" / ",tip=annotated-tag" when the object is a recent commit only relative to recent refs that are tags
 			descBy := map[string]string{}
+			rankBy := map[string]int{}
+			sort.SliceStable(tips, func(i, j int) bool { return tips[i].rank < tips[j].rank })
 			for _, t := range tips {
 				since := f.Commits[t.sha].CTime - int64(p.C+p.O)*86400
 				anc := f.ancestors(t.sha)
@@ -357,16 +385,20 @@ func (f *facts) demands(p caseParams) map[string][]demand {
 						if c05Excluded(p, pth) {
 							continue
 						}
+						// tips come in rank order: "plain" from the lowest-ranked tip that shows it, else "dropped-by-merge"
+						// from the lowest-ranked tip
 						if visible[oid] {
-							descBy[oid] = "plain"
+							if descBy[oid] != "plain" {
+								descBy[oid], rankBy[oid] = "plain", t.rank
+							}
 						} else if descBy[oid] == "" {
-							descBy[oid] = "dropped-by-merge"
+							descBy[oid], rankBy[oid] = "dropped-by-merge", t.rank
 						}
 					}
 				}
 			}
 			for oid, desc := range descBy {
-				add(oid, "recent-commit", desc)
+				add(oid, "recent-commit", desc+[]string{"", ",tip=tag", ",tip=annotated-tag"}[rankBy[oid]])
 			}
 		}
 	}
@@ -429,6 +461,9 @@ func c05Eval(wd *world, p caseParams) (o evalOut) {
 	}
 	if p.Inc != "" {
 		kv = append(kv, [2]string{"lfs.fetchinclude", p.Inc})
+	}
+	if p.NoRR {
+		kv = append(kv, [2]string{"lfs.fetchrecentremoterefs", "false"})
 	}
 	if c05Attrs[wd.spec.Attr].Name == "diff=custom" {
 		kv = append(kv, [2]string{"diff.custom.textconv", "sed s/oid/xid/"}, [2]string{"diff.custom.command", "/bin/false"})
